@@ -1,0 +1,19 @@
+//go:build verif
+
+package storage
+
+// VerifEncodeEntry exposes the unexported entry envelope encoder so that the
+// storage format can be round-tripped without opening a database.
+func VerifEncodeEntry(typ uint8, payload []byte) []byte {
+	e := &Entry{Type: typ, Value: payload}
+	return e.encode()
+}
+
+// VerifDecodeEntry exposes the unexported envelope parser.
+func VerifDecodeEntry(data []byte) (uint8, []byte, error) {
+	e, err := parseEntry(data)
+	if err != nil {
+		return 0, nil, err
+	}
+	return e.Type, e.Value, nil
+}
